@@ -23,7 +23,13 @@ Sq(x) == BMul(x, x)
 AbsDiff(x, y) == IF BLe(y, x) THEN BSub(x, y) ELSE BSub(y, x)
 
 (* ---- field ---- *)
-PrimeModulus(e) == BIsPrime(Pm(e)) /\ BBits(Pm(e)) = e.fbits
+(* the modulus is prime and fills the digit vector of the build; its bit length is the nominal field size in  *)
+(* the baseline and additional configurations (in the field-size sweep a set may be named after another size: *)
+(* K18-P354 is a 345-bit prime - the property asks for primality only)                                        *)
+PrimeModulus(e) ==
+    /\ BIsPrime(Pm(e))
+    /\ \/ BBits(Pm(e)) = e.fbits
+       \/ e.fbits \notin {255, 256, 381} /\ BBits(Pm(e)) <= e.fbits /\ BBits(Pm(e)) > 8 * e.w * (e.fd - 1)
 MontConstants(e) ==
     e.mont = 1 =>
         /\ BMod(BAdd(BMul(BNorm(e.rdc), Pm(e)), <<1>>), W(e)) = <<>>      \* u = -p^-1 mod 2^w
@@ -48,7 +54,10 @@ HasseAndCofactor(e) ==
     LET p == Pm(e)  n == BMul(Ord(e), Cof(e)) IN
     /\ e.h.s = 0 /\ Cof(e) # <<>>
     /\ BLe(Sq(AbsDiff(BAdd(p, <<1>>), n)), BShl(p, 2))
-    /\ BLt(BShl(p, 4), Sq(Ord(e)))
+    \* uniqueness of the multiple by size (r > 4 sqrt(p)) where the sets are built that way: the baseline and additional
+    \* configurations; the large-cofactor families of the field-size sweep (GMT8, FM16, AFG16, FM18: r^2 < p) rely on
+    \* CofactorClears for the witness that h * r is the group order
+    /\ (e.fbits \in {255, 256, 381} => BLt(BShl(p, 4), Sq(Ord(e))))
 CofactorClears(e) ==
     \A j \in 1..Len(e.pts) :
         LET Q == IF e.pts[j].inf = 1 THEN PInf ELSE Pt(BNorm(e.pts[j].x), BNorm(e.pts[j].y)) IN
@@ -86,18 +95,24 @@ GeneratorTable(e) ==
 Lambda(e) ==      \* from the first basis vector: v11 + v12 * lam = 0 (mod r)
     LET r == Ord(e) IN
     BMulMod(IModPos(INeg(BnI(e.v11)), r), BModInv(IModPos(BnI(e.v12), r), r), r)
+(* curves y^2 = x^3 + b (j = 0): psi(x, y) = (beta x, y), beta a primitive cube root of unity, lam^2 + lam + 1 = 0 *)
+(* curves y^2 = x^3 + a x (j = 1728, the k = 8 and k = 16 families): psi(x, y) = (-x, beta y), beta^2 = -1,       *)
+(* lam^2 + 1 = 0 (mod r)                                                                                          *)
+IsJ1728(e) == Cv(e).b = <<>>
 BetaCubeRoot(e) ==
     LET p == Pm(e)  be == BNorm(e.beta) IN
-    e.endom = 1 => be # <<1>> /\ FMul(FSqr(be, p), be, p) = <<1>>
+    e.endom = 1 => IF IsJ1728(e) THEN FSqr(be, p) = BSub(p, <<1>>)
+                   ELSE be # <<1>> /\ FMul(FSqr(be, p), be, p) = <<1>>
 LambdaRoot(e) ==
     LET r == Ord(e)  l == Lambda(e) IN
-    e.endom = 1 => BMod(BAdd(BAdd(Sq(l), l), <<1>>), r) = <<>>
+    e.endom = 1 => IF IsJ1728(e) THEN BMod(BAdd(Sq(l), <<1>>), r) = <<>>
+                   ELSE BMod(BAdd(BAdd(Sq(l), l), <<1>>), r) = <<>>
 PsiIsLambda(e) ==
     e.endom = 1 =>
         LET p == Pm(e)  G == Gen(e)
             psi == Pt(BNorm(e.psix), BNorm(e.psiy)) IN
-        /\ psi.x = FMul(BNorm(e.beta), G.x, p)
-        /\ psi.y \in {G.y, FNeg(G.y, p)}
+        /\ IF IsJ1728(e) THEN psi.x = FNeg(G.x, p) /\ psi.y = FMul(BNorm(e.beta), G.y, p)
+           ELSE psi.x = FMul(BNorm(e.beta), G.x, p) /\ psi.y \in {G.y, FNeg(G.y, p)}
         /\ PMulNat(Lambda(e), G, Cv(e)) = psi
 InLattice(e, x, y) == IModPos(IAdd(x, IMul(y, I(FALSE, Lambda(e)))), Ord(e)) = <<>>
 GlvBasis(e) ==
@@ -184,6 +199,39 @@ EmbeddingDegree(e) ==
         LET r == Ord(e)  p == BMod(Pm(e), Ord(e)) IN
         /\ BModExp(p, BFromNat(e.embed), r) = <<1>>
         /\ \A d \in {j \in 1..(e.embed - 1) : e.embed % j = 0} : BModExp(p, BFromNat(d), r) # <<1>>
+
+(* ---- the advertised family at every field size (field-size sweep): the prime and the group order are the    *)
+(* family polynomials at the stored parameter x.  BN: p, r as above.  Barreto-Lynn-Scott with k = 12, 24, 48:  *)
+(* r divides Phi_k(x) = x^(k/3) - x^(k/6) + 1 and 3 p = (x - 1)^2 Phi_k(x) + 3 x.  Kachisa-Schaefer-Scott:     *)
+(* k = 16: 980 p = x^10 + 2x^9 + 5x^8 + 48x^6 + 152x^5 + 240x^4 + 625x^2 + 2398x + 3125, r | x^8 + 48x^4 + 625 *)
+(* k = 18: 21 p = x^8 + 5x^7 + 7x^6 + 37x^5 + 188x^4 + 259x^3 + 343x^2 + 1763x + 2401, r | x^6 + 37x^3 + 343   *)
+RECURSIVE IPowN(_, _)
+IPowN(x, n) == IF n = 0 THEN IOne ELSE IMul(x, IPowN(x, n - 1))
+RECURSIVE IPolyAt(_, _, _)
+IPolyAt(cs, x, i) ==          \* sum cs[j] x^(j-1), Horner from coefficient i upwards
+    IF i > Len(cs) THEN IFromNat(0) ELSE IAdd(IFromNat(cs[i]), IMul(x, IPolyAt(cs, x, i + 1)))
+BlsPhi(x, k) == LET d == k \div 6 IN IAdd(ISub(IPowN(x, 2 * d), IPowN(x, d)), IOne)
+Divides(r, v) == BMod(v.mag, r) = <<>>
+FamilyAtSize(e) ==
+    LET x == Par(e)  p == I(FALSE, Pm(e))  r == Ord(e) IN
+    CASE e.fam = "BN" ->
+            /\ e.embed = 12
+            /\ IEq(PolyBN(x, 36, 36, 24, 6, 1), p) /\ IEq(PolyBN(x, 36, 36, 18, 6, 1), I(FALSE, r))
+      [] e.fam \in {"B12", "B24", "B48"} ->
+            LET k == IF e.fam = "B12" THEN 12 ELSE IF e.fam = "B24" THEN 24 ELSE 48
+                phi == BlsPhi(x, k)
+                xm1 == ISub(x, IOne) IN
+            /\ e.embed = k /\ ~phi.neg /\ Divides(r, phi)
+            /\ IEq(IAdd(IMul(IMul(xm1, xm1), phi), IMul(IFromNat(3), x)), IMul(IFromNat(3), p))
+      [] e.fam = "K16" ->
+            /\ e.embed = 16
+            /\ IEq(IPolyAt(<<3125, 2398, 625, 0, 240, 152, 48, 0, 5, 2, 1>>, x, 1), IMul(IFromNat(980), p))
+            /\ Divides(r, IPolyAt(<<625, 0, 0, 0, 48, 0, 0, 0, 1>>, x, 1))
+      [] e.fam = "K18" ->
+            /\ e.embed = 18
+            /\ IEq(IPolyAt(<<2401, 1763, 343, 259, 188, 37, 7, 5, 1>>, x, 1), IMul(IFromNat(21), p))
+            /\ Divides(r, IPolyAt(<<343, 0, 0, 37, 0, 0, 1>>, x, 1))
+      [] OTHER -> e.fam \in {"none", "other"}
 
 (* the quadratic tower and the twist *)
 T2(e) == [p |-> Pm(e), lv |-> <<[deg |-> 2, nr |-> BNorm(e.usq0)]>>]
@@ -273,6 +321,30 @@ ParamAccept(e) ==
          [] e.rel = "GlvRounding" -> GlvRounding(e)
          [] e.rel = "MapConstants" -> MapConstants(e)
          [] e.rel = "TwistCofactorClears" -> TwistCofactorClears(e)
+         [] e.rel = "FamilyAtSize" -> FamilyAtSize(e)
          [] OTHER -> FALSE
-ParamKnownKey(e) == ""
+(* ep_param_level has no entry for some selectable sets of the field-size sweep (CURVE_67254, CURVE_383187,      *)
+(* CURVE_511187, SG54-P569, B48-P575, SG18-P638, AFG16-P766): the advertised level is 0                           *)
+ParamKnownKey(e) ==
+    IF e.op # "ep" \/ e.id <= 0 THEN ""
+    ELSE IF e.rel = "SecurityLevel" /\ e.level = 0 /\ e.fbits \in {382, 383, 511, 569, 575, 638, 766}
+    THEN "C18-level-zero-sweep-sets"
+    \* B12-P446 selected in a 446-bit build without FP_QNRES: fp2_field_get_qnr() is hard-wired to 16 for the field size
+    \* (the BN-P446 tower); for the BLS12 prime xi = 16 + u is a square, so v^3 = xi, w^2 = v do not define F_p12 and the
+    \* twist constants derived from xi do not fit the curve
+    ELSE IF e.rel \in {"TowerIsField", "TwistCoefficients", "FrobeniusOnG2"} /\ e.fbits = 446 /\ e.fam = "B12" /\ e.embed = 12
+            /\ BNorm(e.xi0) = <<16>> /\ BNorm(e.xi1) = <<1>>
+    THEN "C18-b12-p446-tower-without-qnres"
+    \* B12-P377: the stored cofactor of the twist (ep2_curve_get_cof) is two less than #E'(F_p2) / r: h2 * r does not
+    \* annihilate the points of the twist (the witnesses themselves are on the twist)
+    ELSE IF e.rel = "TwistCofactorClears" /\ e.fbits = 377 /\ e.fam = "B12" /\ e.embed = 12 /\ Len(e.pts2) >= 1
+            /\ \A j \in 1..Len(e.pts2) :
+                   XOnCurve(XPt(E2(e.pts2[j].x0, e.pts2[j].x1), E2(e.pts2[j].y0, e.pts2[j].y1)), Twist(e))
+    THEN "C18-b12-p377-twist-cofactor"
+    \* AFG16-P510: the stored cofactor (a 255-bit value) times the 256-bit order r is not a curve order - it lies
+    \* outside the Hasse interval around p + 1 by about 2^509
+    ELSE IF e.rel = "HasseAndCofactor" /\ e.fbits = 510 /\ e.pairf # 0 /\ e.embed = 16 /\ e.h.s = 0 /\ Cof(e) # <<>>
+            /\ ~BLe(Sq(AbsDiff(BAdd(Pm(e), <<1>>), BMul(Ord(e), Cof(e)))), BShl(Pm(e), 2))
+    THEN "C18-afg16-p510-cofactor"
+    ELSE ""
 =============================================================================
